@@ -171,6 +171,18 @@ def Comp.afterPass (solDen : Den) (density : Rat) (elt : String → Option Rat) 
 def readComps (lines : List Comp) : ExtTreeMap String Comp compare :=
   lines.foldl (fun m c => m.insert c.name c) ∅
 
+/-- default-units fix-up at the end of `read_solution` / `spread_row_to_solution`
+(`check_units(units, alk, check_compatibility = true, default_units)`): a component without units of its own takes the
+solution's; alkalinity given in moles is read as equivalents; equivalents are only allowed for alkalinity; the
+denominator must be the solution's. `none` = input error. -/
+def fixupUnit (dflt : Unit) (own : Option Unit) (alk : Bool) : Option Unit :=
+  match own with
+  | none => some dflt
+  | some u =>
+    let u := if alk && u.kind == .mol then { u with kind := .eq } else u
+    if !alk && u.kind == .eq then none
+    else if u.den == dflt.den then some u else none
+
 /-- molality of a total -/
 def molality (r : Result) (water : Rat) (k : String) : Option Rat := r.totals[k]?.map (· / water)
 
